@@ -43,7 +43,12 @@ Inductive event :=
 | ESet (m : N)                       (* pop v; metric m = v      (Iset) *)
 | EInc (m : N)                       (* metric m ++              (Inc)  *)
 | EFail                              (* any other runtime error: errorf *)
-| EStop.                             (* stop *)
+| EStop                              (* stop *)
+(* the per-line match table (thread.matches) and reads from it *)
+| EMatch (re : N) (res : option (list bytes))
+                                     (* Match/Smatch: matches[re] = FindStringSubmatch (None = nil) *)
+| ECapref (re : N) (k : nat)         (* Capref: push matches[re][k]; runtime error when absent *)
+| EStrptimeTop (layout : bytes).     (* strptime(<string on the stack>, layout) *)
 
 (* a scalar int datum: value and BaseDatum.Time (int64 ns) *)
 Record cell := { d_val : Z; d_time : Z }.
@@ -64,9 +69,26 @@ Fixpoint store_set (m : N) (c : cell) (st : store) : store :=
    runtime-error counter (prog_runtime_errors_total) *)
 Record world := { w_store : store; w_errs : N }.
 
-(* thread: created afresh by ProcessLogLine; only the parts that matter here *)
-Record thread := { t_time : Z; t_stack : list Z }.
-Definition fresh_thread : thread := {| t_time := zero_ns; t_stack := [] |}.
+(* thread.matches: regexp index |-> last FindStringSubmatch result on this line *)
+Definition caps := list (N * option (list bytes)).
+Fixpoint caps_get (re : N) (c : caps) : option (list bytes) :=
+  match c with
+  | [] => None
+  | (r, v) :: rest => if N.eqb re r then v else caps_get re rest
+  end.
+Definition caps_set (re : N) (v : option (list bytes)) (c : caps) : caps := (re, v) :: c.
+(* len(t.matches[re]) <= k is the runtime error "Not enough capture groups matched" *)
+Definition cap_read (re : N) (k : nat) (c : caps) : option bytes :=
+  match caps_get re c with
+  | Some gs => nth_error gs k
+  | None => None
+  end.
+
+(* thread: created afresh by ProcessLogLine; only the parts that matter here.
+   The VM has one stack; ints and strings are kept on two stacks here (the
+   generated programs never interleave them in a way that could tell). *)
+Record thread := { t_time : Z; t_stack : list Z; t_caps : caps; t_strs : list bytes }.
+Definition fresh_thread : thread := {| t_time := zero_ns; t_stack := []; t_caps := []; t_strs := [] |}.
 
 (* per-line wall clock *)
 Record line := { l_now : Z; l_year : Z; l_evs : list event }.
@@ -139,28 +161,48 @@ Section Model.
          s_vm := {| v_memo := v_memo (s_vm s); v_term := true |} |}.
 
     Definition set_time (t : Z) (m : M) (s : mstate) : mstate :=
-      {| s_th := {| t_time := t; t_stack := t_stack (s_th s) |};
+      {| s_th := {| t_time := t; t_stack := t_stack (s_th s);
+                    t_caps := t_caps (s_th s); t_strs := t_strs (s_th s) |};
          s_w := s_w s;
          s_vm := {| v_memo := m; v_term := v_term (s_vm s) |} |}.
 
     Definition push (z : Z) (s : mstate) : mstate :=
-      {| s_th := {| t_time := t_time (s_th s); t_stack := z :: t_stack (s_th s) |};
+      {| s_th := {| t_time := t_time (s_th s); t_stack := z :: t_stack (s_th s);
+                    t_caps := t_caps (s_th s); t_strs := t_strs (s_th s) |};
          s_w := s_w s; s_vm := s_vm s |}.
 
     (* datum.SetInt / IncIntBy: value, then stamp(t.time) *)
     Definition write (now : Z) (m : N) (v : Z) (stk : list Z) (s : mstate) : mstate :=
-      {| s_th := {| t_time := t_time (s_th s); t_stack := stk |};
+      {| s_th := {| t_time := t_time (s_th s); t_stack := stk;
+                    t_caps := t_caps (s_th s); t_strs := t_strs (s_th s) |};
          s_w := {| w_store := store_set m {| d_val := v; d_time := stamp_value now (t_time (s_th s)) |}
                                 (w_store (s_w s));
                    w_errs := w_errs (s_w s) |};
          s_vm := s_vm s |}.
 
+    Definition set_tables (c : caps) (ss : list bytes) (s : mstate) : mstate :=
+      {| s_th := {| t_time := t_time (s_th s); t_stack := t_stack (s_th s); t_caps := c; t_strs := ss |};
+         s_w := s_w s; s_vm := s_vm s |}.
+
+    Definition do_strptime (cfg : config) (year : Z) (layout value : bytes) (s : mstate) : mstate :=
+      match strp cfg year layout value (v_memo (s_vm s)) with
+      | (m, Some t) => set_time t m s
+      | (m, None) => raise (set_time (t_time (s_th s)) m s)
+      end.
+
     Definition step (cfg : config) (now year : Z) (e : event) (s : mstate) : mstate :=
       match e with
-      | EStrptime layout value =>
-          match strp cfg year layout value (v_memo (s_vm s)) with
-          | (m, Some t) => set_time t m s
-          | (m, None) => raise (set_time (t_time (s_th s)) m s)
+      | EStrptime layout value => do_strptime cfg year layout value s
+      | EMatch re res => set_tables (caps_set re res (t_caps (s_th s))) (t_strs (s_th s)) s
+      | ECapref re k =>
+          match cap_read re k (t_caps (s_th s)) with
+          | Some g => set_tables (t_caps (s_th s)) (g :: t_strs (s_th s)) s
+          | None => raise s
+          end
+      | EStrptimeTop layout =>
+          match t_strs (s_th s) with
+          | v :: ss => do_strptime cfg year layout v (set_tables (t_caps (s_th s)) ss s)
+          | [] => raise s
           end
       | ESettime n => set_time (n * ns_per_s) (v_memo (s_vm s)) s
       | ETimestamp => push (ts_value now (t_time (s_th s))) s
@@ -217,20 +259,48 @@ Section Model.
 
   (* ---- what the property dictates for the register after a prefix of a line
      that ran to its end (no error, no stop) ---- *)
-  Fixpoint time_spec (cfg : config) (year : Z) (evs : list event) (reg : Z) : Z :=
-    match evs with
-    | [] => reg
-    | EStrptime layout value :: r =>
+  (* one event of a line that goes on: register, match table, string stack *)
+  Definition spec_state := (Z * caps * list bytes)%type.
+  Definition spec_step (cfg : config) (year : Z) (e : event) (st : spec_state) : spec_state :=
+    let '(reg, cp, ss) := st in
+    match e with
+    | EStrptime layout value =>
         match strptime_spec cfg year layout value with
-        | Some t => time_spec cfg year r t
-        | None => time_spec cfg year r reg
+        | Some t => (t, cp, ss)
+        | None => st
         end
-    | ESettime n :: r => time_spec cfg year r (n * ns_per_s)
-    | _ :: r => time_spec cfg year r reg
+    | ESettime n => (n * ns_per_s, cp, ss)
+    | EMatch re res => (reg, caps_set re res cp, ss)
+    | ECapref re k =>
+        match cap_read re k cp with
+        | Some g => (reg, cp, g :: ss)
+        | None => st
+        end
+    | EStrptimeTop layout =>
+        match ss with
+        | v :: ss' =>
+            match strptime_spec cfg year layout v with
+            | Some t => (t, cp, ss')
+            | None => (reg, cp, ss')
+            end
+        | [] => st
+        end
+    | _ => st
     end.
+  Fixpoint spec_run (cfg : config) (year : Z) (evs : list event) (st : spec_state) : spec_state :=
+    match evs with
+    | [] => st
+    | e :: r => spec_run cfg year r (spec_step cfg year e st)
+    end.
+  (* the register after a prefix run from a thread whose tables are empty *)
+  Definition time_spec (cfg : config) (year : Z) (evs : list event) (reg : Z) : Z :=
+    fst (fst (spec_run cfg year evs (reg, [], []))).
 
   Definition sets_time (e : event) : bool :=
-    match e with EStrptime _ _ | ESettime _ => true | _ => false end.
+    match e with EStrptime _ _ | ESettime _ | EStrptimeTop _ => true | _ => false end.
+  (* the event writes slot re of the match table *)
+  Definition matches_re (re : N) (e : event) : bool :=
+    match e with EMatch r _ => N.eqb r re | _ => false end.
 End Model.
 
 Arguments v_memo {M}. Arguments v_term {M}.
